@@ -192,6 +192,19 @@ def check_pair(acc, pendulum, u1, u2):
     if ga != abs(diff) or a.total_seconds() != abs(diff) / US:
         acc.mismatch("diff", "absolute", case, {"accessor_us": ga, "total_seconds": a.total_seconds()},
                      abs(diff))
+    # ... and as the timedelta it is: non-negative, equal to (and hashing like) the timedelta of that length, addable to a Time
+    import datetime as dt_
+    tdl = dt_.timedelta(microseconds=abs(diff))
+    nat = [obs.td_us(a), a == tdl, a >= dt_.timedelta(0), hash(a) == hash(tdl), a.invert == (diff < 0) if diff else True]
+    if nat != [abs(diff), True, True, True, True]:
+        acc.mismatch("diff", "absolute/as-timedelta", case, nat, [abs(diff), True, True, True, True])
+    try:
+        back = t1 + a if diff >= 0 else t2 + a
+        gb = t_us(back)
+    except Exception as e:  # noqa: BLE001
+        gb = f"raises {type(e).__name__}"
+    if gb != (u2 if diff >= 0 else u1):
+        acc.mismatch("diff", "absolute/added-back", case, gb, u2 if diff >= 0 else u1)
     # the components the difference reports (days, h, min, s, us) are the decomposition of that length
     for lbl, dur, val in (("signed", d, diff), ("absolute", a, abs(diff))):
         sg = -1 if val < 0 else 1
